@@ -22,7 +22,7 @@ Requirements for the change:
 * It must need something specific to manifest (an unusual input, a particular multi-step sequence of operations, a crash or fault at a particular point, a particular interleaving, a rarely used unit/prefix/branch), NOT something ordinary use would expose at once. Common inputs should still behave correctly.
 * Keep it small (a few lines, one or two files under src/ or the generated tables).
 {extra}
-Also write a demonstration: a Rust integration test file (e.g. tests/demo_{tag}.rs using the public `anything` API) or a small shell script around the `any` binary that FAILS with your change and PASSES on the unchanged code. Verify both directions yourself (use `git stash` / `git stash pop` for the source change, keeping the demo).
+Also write a demonstration: a Rust integration test file (e.g. tests/demo_{tag}.rs using the public `anything` API) or a small shell script around the `any` binary that FAILS with your change and PASSES on the unchanged code. Verify both directions yourself. IMPORTANT: do NOT use `git stash` (the stash stack is shared by several worktrees that other people are using at the same time); instead save your change with `git diff -- src tools > /tmp/mut-{tag}-out/patch.diff`, remove it with `git apply -R /tmp/mut-{tag}-out/patch.diff`, run the demonstration, and re-apply it with `git apply /tmp/mut-{tag}-out/patch.diff`.
 
 Deliver in /tmp/mut-{tag}-out/ :
 * patch.diff — `git diff` of the source change only (without the demonstration),
